@@ -7,7 +7,7 @@ from .. import runner
 
 ID = re.compile(r"\{T(\d+)\}")
 TITLES = ["Title", "t", "A longer title with spaces", "ünï ✓", "日本語", "x" * 40, "###", "a.b-c", "", "with *stars* and `ticks`", "pipe | and \\ backslash", "_under_ :role:`x`"]
-HEADERS = [list("#*=-_~!&@^"), ["="], ["*", "#"], list("-~^"), ["+", "=", "-"]]
+HEADERS = [list("#*=-_~!&@^"), ["="], ["*", "#"], list("-~^"), ["+", "=", "-"], list("=-=-"), ["#", "#", "*"], list("~~~~")]
 TEXTS = ["plain", "  leading two", "        eight", "a\nb", "first\n   indented second\nthird", "tail  ", ":looks: like field",
          ".. looks:: like directive", "* bullet-like", "ünï ✓", "\ttab", "", "line\n\nwith blank"]
 
@@ -149,6 +149,19 @@ class Prop(BaseProp):
                     before = after
             if len(set(outs)) != 1:
                 res.violate("serialisation-not-repeatable", "consecutive serialisations differ", {"ops": ops[-30:], "outs": outs[:2]})
+            # any container of the document (a nested directive, a sub-section) can be serialised on its own: all forms agree
+            if len(live) > 1 and rng.random() < 0.5:
+                import io
+                sub, _mn = rng.choice(live[1:])
+                a_ = str(sub)
+                b_ = sub.to_text()
+                buf = io.StringIO()
+                sub.write_to_file(buf)
+                res.count("nested_containers_serialised")
+                if not (a_ == b_ == buf.getvalue()):
+                    res.violate("serialisation-forms-disagree:nested-container",
+                                f"{type(sub).__name__}: str/to_text/write_to_file give {len({a_, b_, buf.getvalue()})} different texts",
+                                {"ops": ops[-30:], "str": a_[:600], "write_to_file": buf.getvalue()[:600]})
             self.check_text(res, outs[0], root, state["title"], headers[level], ops)
 
         n_ops = rng.randint(3, 40)
